@@ -398,9 +398,27 @@ func (c *Cache) Snapshot() (*Cache, error) {
 		}
 	}
 
-	// Did a prior snapshot exist that failed?  If so, return the existing
-	// snapshot to retry.
+	// Did a prior snapshot exist that failed?  If so, retry it, together with what
+	// has been written since: once the snapshot is on disk the caller removes every WAL
+	// segment closed so far, and those hold the later writes as well.
 	if c.snapshot.Size() > 0 {
+		if err := c.store.applySerial(func(k []byte, e *entry) error {
+			e.mu.RLock()
+			defer e.mu.RUnlock()
+			_, err := c.snapshot.store.write(k, e.values)
+			return err
+		}); err != nil {
+			c.snapshotting = false
+			return nil, err
+		}
+		added := atomic.LoadUint64(&c.size)
+		snapshotSize := c.Size()
+		atomic.StoreUint64(&c.snapshot.size, snapshotSize)
+		atomic.StoreUint64(&c.snapshotSize, snapshotSize)
+		c.store.reset()
+		atomic.StoreUint64(&c.size, 0)
+		c.lastSnapshot = time.Now()
+		c.updateCachedBytes(added)
 		return c.snapshot, nil
 	}
 
